@@ -1367,6 +1367,10 @@ func decodeSchemaConstructs(dec *urlValuesDecoder, schemas []*openapi3.SchemaRef
 			if err != nil {
 				continue
 			}
+			if isNilValue(value) {
+				// the form does not carry this property
+				continue
+			}
 			if existingValue, exists := obj[name]; exists && !isEqual(existingValue, value) {
 				return fmt.Errorf("conflicting values for property %q", name)
 			}
